@@ -1,8 +1,9 @@
 SPECIFICATION MSpec
 CONSTANTS
   Peer <- P3
-  Group <- G2
+  Group <- G1
   MaxKnown = 2
+  HsDirs = {"in"}
   FNode = {}
   Overlays = {}
   Joined = {}
